@@ -173,6 +173,39 @@ def has_promotable(docs):
     txt = json.dumps([d['raw'] for d in docs])
     return any(f'"k": "{k}"' in txt for k in ('call', 'bind', 'callName', 'bindName', 'path', 'append', 'extend'))
 
+def fresh_data(v, ctr=None):
+    """plain data for the API family with every leaf a value of its own (a fresh object): the container constructors give ONE node to
+    one python object (by design), and small ints / literal strings / True / False are shared objects (None is exempt in the library)"""
+    ctr = [0] if ctr is None else ctr
+    if isinstance(v, dict): return {k: fresh_data(x, ctr) for k, x in v.items()}
+    if isinstance(v, list): return [fresh_data(x, ctr) for x in v]
+    ctr[0] += 1
+    if ctr[0] % 7 == 3: return None
+    if ctr[0] % 7 == 5: return 1000.5 + ctr[0]
+    return ('v%d' % ctr[0]) if ctr[0] % 2 else 1000 + ctr[0]
+
+def plain_json(v):
+    """python data -> the protocol form of op fromPy (the shape the driver's plainJ writes)"""
+    if isinstance(v, dict): return {'d': [[sc_json(k), plain_json(x)] for k, x in v.items()]}
+    if isinstance(v, list): return {'l': [plain_json(x) for x in v]}
+    return sc_json(v)
+
+API_KW = {'prio': 'priority', 'del': 'delete', 'new': 'allow_new', 'safe': 'safe', 'md': 'metadata', 'src': 'source_file',
+          'iDel': 'implicit_delete', 'iNew': 'implicit_allow_new', 'iSafe': 'implicit_safe'}
+
+def gen_api_kw(r):
+    """random keyword arguments among those ConfigNode.__init__ accepts (protocol names), and the two thread-local defaults"""
+    kw = {}
+    if r.random() < 0.5: kw['prio'] = r.choice([-1, 0, 1, 1, None] + ([5] if r.random() < 0.15 else []))
+    for k in ('del', 'new', 'safe'):
+        if r.random() < 0.45: kw[k] = r.choice([True, False, None])
+    if r.random() < 0.3: kw['md'] = r.choice([[], [['m', 1]], [['a', 'x'], ['b', {'f': '2.5'}], ['c', None]]])
+    if r.random() < 0.3: kw['src'] = r.choice(['api.yaml', None])
+    for k in ('iDel', 'iNew', 'iSafe'):
+        if r.random() < 0.2: kw[k] = r.choice([True, False, None])
+    env = {'safe': r.choice([None, None, True, False]), 'src': r.choice([None, None, 'dflt.yaml'])}
+    return kw, env
+
 class C19(Prop):
     ID = 'C19'
     WORLD = GE.WORLD
@@ -182,7 +215,8 @@ class C19(Prop):
     RULE = ('three streams: (merge) sequences of 1-4 documents over the full merge vocabulary (gen_merge.FULLMERGE) or with dynamic '
             'nodes (gen_eval), built with Builder and the merged tree copied; (prefix) the same with the last document held back and '
             'merged into original / deepcopy / pickle copy; (parse) single documents over the whole tag vocabulary incl. !prev !fstr '
-            '!path !include !null, copied unmerged. non-trivial = the tree has at least one composed node below the root; distinct by SHA-1')
+            '!path !include !null, copied unmerged; (api) plain data handed to ConfigNode(data, **kwargs) in a fresh thread with random keywords / '
+            'thread-local defaults, compared with the model\'s fromPy and copied. non-trivial = the tree has at least one composed node below the root; distinct by SHA-1')
     ASSUMPTIONS = ['object identity (the copy shares no node) is checked on the implementation only; the Lean model is a value model',
                    'copy / pickle protocol order is CPython behaviour (traced: state-then-items for deepcopy, items-then-state for pickle)',
                    'a copy that differs from its original only in inherited safety after a merge with !unsafe content is attributed to finding D27']
@@ -201,6 +235,10 @@ class C19(Prop):
               M({'b': S(2)}), witness=True),
             # finding D27b: _u: !call:rec.f{{'delete': False}} {} <- _u: ["hello world"]  (promotion of the function node)
             D('merge', M({'_u': M([], tag={'k': 'call', 'f': 'rec.f'}, kw={'del': False})}), M({'_u': Q([S('hello world')])}), witness=True),
+            # the programmatic path: ConfigNode(data, **kw) against `fromPy` (every keyword; a thread with and without defaults)
+            D('api', M({'a': Q([S(1), M({'b': S(2)})]), 'c': S(3), 'e': M([]), 'l': Q([])}), parse_between=True, env={'safe': None, 'src': None},
+              kw={'prio': 1, 'del': True, 'new': False, 'safe': False, 'md': [['x', 1]], 'src': 'f.yaml', 'iDel': False, 'iNew': True, 'iSafe': True}),
+            D('api', Q([S(1), Q([S(2)])]), parse_between=False, kw={'new': False}, env={'safe': True, 'src': 'dflt.yaml'}),
             D('parse', M({'p': Q([S('d')], tag={'k': 'path', 'f': 'cwd'}), 'i': Stext('inc.yaml', 'include'), 'n': Sempty('null', kw={'prio': 1}),
                           'e': Stext('T(p)', 'eval'), 'x': Stext('p', 'xref'), 'f': Stext("f'{p}'", 'fstr'), 'c': Sempty('clear'),
                           'v': Stext('p', 'prev'), 'q': Q([S(1)], tag='append'), 'r': Sempty('required')})),
@@ -223,9 +261,11 @@ class C19(Prop):
             case['vseed'] = rng.randrange(1 << 30)
             out.append(case)
         r2 = _random.Random(rng.random())
-        for _ in range(max(4, n // 15)):          # (api) drawn last: the cases above stay the same for a seed
+        for i in range(max(8, n // 8)):          # (api) drawn last: the cases above stay the same for a seed
             out.append({'docs': [{'raw': G.gen_doc(r2, G.PLAIN, 3, 0.0)}], 'mode': 'api', 'style': ['flow', 0, 0], 'vseed': r2.randrange(1 << 30),
                         'parse_between': r2.random() < 0.8})
+            if i % 4:                             # every fourth case: ConfigNode(data) with no keyword, in a thread without defaults
+                out[-1]['kw'], out[-1]['env'] = gen_api_kw(r2)
         return out
 
     # ------------------------------------------------------------------ implementation
@@ -237,23 +277,20 @@ class C19(Prop):
         if mode == 'api':
             # the tree is built through the PYTHON API (ConfigNode(data)) in a FRESH thread, where no parse has set the thread-local
             # defaults yet; then something is parsed in that thread (which changes those defaults), then the tree is copied
-            # (seeded change S6-C19: a copy re-ran the constructor and picked the defaults of the moment). Outside the loader
-            # model: oracle only.
-            import threading
+            # (seeded change S6-C19: a copy re-ran the constructor and picked the defaults of the moment). The model follows this
+            # path with `fromPy` (Model/FromPy.lean): keywords case['kw'], thread-local defaults case['env'].
+            import threading, contextlib
+            kw = {API_KW[k]: ({a: sc_py(b) for a, b in v} if k == 'md' and v is not None else v) for k, v in case.get('kw', {}).items()}
+            env = case.get('env', {})
             box = {}
             def work():
                 try:
                     from awesomeyaml.nodes.node import ConfigNode as CN
-                    # every leaf a value of its own (a fresh object): the container constructors give ONE node to one python object
-                    # (by design), and None / small ints / literal strings are shared objects
-                    ctr = [0]
-                    def fresh(v):
-                        if isinstance(v, dict): return {k: fresh(x) for k, x in v.items()}
-                        if isinstance(v, list): return [fresh(x) for x in v]
-                        ctr[0] += 1
-                        return ('v%d' % ctr[0]) if ctr[0] % 2 else 1000 + ctr[0]
-                    data = fresh(plain_of_raw(docs[0]['raw']))
-                    tree = CN(data)
+                    data = fresh_data(plain_of_raw(docs[0]['raw']))
+                    with contextlib.ExitStack() as es:
+                        if env.get('src') is not None: es.enter_context(CN.default_filename(env['src']))
+                        if env.get('safe') is not None: es.enter_context(CN.default_safe_flag(env['safe']))
+                        tree = CN(data, **kw)
                     if case.get('parse_between', True):
                         Builder().add_source('warm: {up: [1, 2]}', raw_yaml=True)
                     box['ok'] = [observe(tree, rng, st, None, self.WORLD, evaluate=False)]
@@ -284,11 +321,15 @@ class C19(Prop):
     # ------------------------------------------------------------------ model
     def model_requests(self, case):
         if case['mode'] == 'api':
-            return []
+            env = case.get('env', {})          # a fresh thread: no default file name, default safe flag False
+            return [{'op': 'fromPy', 'data': plain_json(fresh_data(plain_of_raw(case['docs'][0]['raw']))), 'kw': case.get('kw', {}),
+                     'safe': bool(env.get('safe')), 'src': env.get('src')}]
         docs = case['docs'] if case['mode'] != 'prefix' else case['docs'][:-1]
         return [{'op': 'c19', 'docs': docs, 'mode': 'parse' if case['mode'] == 'parse' else 'merge'}]
 
     def model_obs(self, case, answers):
+        if answers and case['mode'] == 'api' and 'ok' in answers[0]:
+            return {'ok': [dict(answers[0], tree=answers[0]['ok'])]}
         return answers[0] if answers else {'err': 'unsupported'}
 
     def compare_model(self, case, io, mo):
@@ -300,7 +341,7 @@ class C19(Prop):
             i = {k: v for k, v in io.items() if k != 'ok'} if 'err' in io else {'ok': '...'}
             m = canon_model_answer(mo) if 'err' in mo else {'ok': '...'}
             return first_diff(i, m)
-        ms = mo['ok'] if case['mode'] == 'parse' else ([] if mo['ok'] is None else [mo['ok']])
+        ms = mo['ok'] if case['mode'] in ('parse', 'api') else ([] if mo['ok'] is None else [mo['ok']])
         if len(ms) != len(io['ok']):
             return f"model has {len(ms)} trees, implementation {len(io['ok'])}"
         for i, (a, m) in enumerate(zip(io['ok'], ms)):
@@ -403,7 +444,7 @@ class C19(Prop):
 
     def render(self, case):
         st = case.get('style', ['flow', 0, 0])
-        out = [f"mode={case['mode']}"]
+        out = [f"mode={case['mode']}" + (f" kw={case.get('kw')} env={case.get('env')}" if case['mode'] == 'api' else '')]
         for d in case['docs']:
             try:
                 out.append(('[safe=False] ' if d.get('safe') is False else '') + render_doc(d['raw'], *st).rstrip())
